@@ -51,3 +51,79 @@ func verifRoundTrip(kind string, v primitive.ProtocolVersion, mode int) {
 }
 
 type codec_t = codec
+
+// verifConformance (C02): bytes emitted == bytes prescribed by the reference encoder written from the specs;
+// spec-formatted bytes decode to the message they denote.
+func verifConformance(kind string, v primitive.ProtocolVersion) {
+	f := verifFrame(kind, v, false)
+	if verifMultiEntryMap {
+		nd.Assume(false)
+	}
+	want := refFrame(f)
+	codec := NewRawCodec()
+	buf := &bytes.Buffer{}
+	err := codec.EncodeFrame(f, buf)
+	nd.Assert(err == nil, "version-valid frame encodes without error")
+	if err != nil {
+		return
+	}
+	got := buf.Bytes()
+	nd.Assert(len(got) == len(want), "emitted length equals the length prescribed by the specification")
+	nd.Assert(bytes.Equal(got, want), "emitted bytes equal the bytes prescribed by the specification")
+	g, err := codec.DecodeFrame(bytes.NewReader(want))
+	nd.Assert(err == nil, "specification-formatted bytes decode without error")
+	if err != nil {
+		return
+	}
+	verifEq_PFrame("spec-bytes", f, g)
+}
+
+// verifHeaderRejection (C02c): all 2^72 header byte strings.
+func VerifC02_HeaderRejection() {
+	b := nd.Bytes("h", 9)
+	codec := NewRawCodec()
+	h, err := codec.DecodeHeader(bytes.NewReader(b))
+	ver := b[0] & 0x7f
+	resp := b[0]&0x80 != 0
+	if !nd.In(uint64(ver), 2, 3, 4, 5, 0x41, 0x42) {
+		nd.Assert(err != nil, "unsupported version byte is rejected")
+		return
+	}
+	var op byte
+	if ver == 2 {
+		op = b[3]
+	} else {
+		op = b[4]
+	}
+	isReq := nd.In(uint64(op), 0x01, 0x05, 0x07, 0x09, 0x0A, 0x0B, 0x0D, 0x0F, 0xFF)
+	isResp := nd.In(uint64(op), 0x00, 0x02, 0x03, 0x06, 0x08, 0x0C, 0x0E, 0x10)
+	ok := isReq
+	if resp {
+		ok = isResp
+	}
+	nd.Assert((err == nil) == ok, "header accepted exactly when the opcode is declared and matches the direction bit")
+	if err != nil {
+		return
+	}
+	nd.Assert(uint8(h.Version) == ver, "version")
+	nd.Assert(h.IsResponse == resp, "direction")
+	nd.Assert(uint8(h.Flags) == b[1], "flags")
+	nd.Assert(uint8(h.OpCode) == op, "opcode")
+	if ver == 2 {
+		nd.Assert(h.StreamId == int16(int8(b[2])), "v2 stream id is a signed byte")
+		nd.Assert(uint32(h.BodyLength) == uint32(b[4])<<24|uint32(b[5])<<16|uint32(b[6])<<8|uint32(b[7]), "length")
+	} else {
+		nd.Assert(uint16(h.StreamId) == uint16(b[2])<<8|uint16(b[3]), "stream id is a [short]")
+		nd.Assert(uint32(h.BodyLength) == uint32(b[5])<<24|uint32(b[6])<<16|uint32(b[7])<<8|uint32(b[8]), "length")
+	}
+}
+
+func VerifC02_EncodeHeaderUnsupportedVersion() {
+	h := &Header{Version: primitive.ProtocolVersion(nd.Uint8("v")), Flags: primitive.HeaderFlag(nd.Uint8("f")), StreamId: nd.Int16("s"), OpCode: primitive.OpCode(nd.Uint8("op")), BodyLength: nd.Int32("len"), IsResponse: nd.Bool("resp")}
+	buf := &bytes.Buffer{}
+	err := NewRawCodec().EncodeHeader(h, buf)
+	if !nd.In(uint64(h.Version), 2, 3, 4, 5, 0x41, 0x42) {
+		nd.Assert(err != nil, "unsupported version is refused by the encoder")
+		nd.Assert(buf.Len() == 0, "nothing written for an unsupported version")
+	}
+}
